@@ -3,6 +3,7 @@
   (extension only appends members), hence `noEagerCycleBase` follows from `noEagerCycle`.
 -/
 import PyGqlModel.Props.C11_nos8
+import PyGqlModel.Props.C11
 
 set_option linter.unusedVariables false
 set_option linter.unusedSimpArgs false
@@ -326,5 +327,33 @@ theorem validDoc_of_sdlOK (doc : Doc) (d : SchemaD) (v : SdlOK doc d) : ValidDoc
     declared content. The only premises are `SdlOK`'s: nothing about intermediate results of the builder. -/
 theorem build_exact_final (doc : Doc) (d : SchemaD) (v : SdlOK doc d) : build doc = .ok d :=
   build_exact_of_defaultsAgree doc d (validDoc_of_sdlOK doc d v)
+
+/-! ### non-vacuity -/
+
+/-- a document without default values trivially satisfies NoS8 -/
+theorem defaultsAgree_of_noDefaults (doc : Doc)
+    (h1 : ∀ t ∈ merged doc, ∀ a ∈ inputValsOf t, a.default.isNone = true)
+    (h2 : ∀ d ∈ dirDefs doc, ∀ a ∈ d.args, a.default.isNone = true) : DefaultsAgree doc := by
+  refine ⟨?_, ?_⟩
+  · intro t ht a ha l hl; have := h1 t ht a ha; rw [hl] at this; cases this
+  · intro d hd a ha l hl; have := h2 d hd a ha; rw [hl] at this; cases this
+
+def extDoc : Doc := [.ext exExt, .type exQuery, .type { kind := .enum, name := "E", values := [{ name := "A" }] },
+  .ext { kind := .enum, name := "E", values := [{ name := "B" }] },
+  .type { kind := .object, name := "M", fields := [{ name := "m", type := .named "E" }] },
+  .schemaExt { ops := [("mutation", "M")] }]
+
+theorem extDeclares : (Declared extDoc).isSome = true := by decide
+
+/-- non-vacuity: a document with extensions of two kinds and an `extend schema` satisfies `SdlOK` -/
+theorem extDoc_ok : SdlOK extDoc ((Declared extDoc).get extDeclares) :=
+  { uniqueTypes := by decide, uniqueDirectives := by decide, oneSchema := by decide, noBuiltinNames := by decide,
+    extTargets := by decide, declares := by simp,
+    defaultsAgree := defaultsAgree_of_noDefaults extDoc (by decide) (by decide),
+    membersUnique := by decide, noThunkCycle := by decide, noEagerCycle := by decide, noSpecified := by decide,
+    schemaOps := by decide, extOps := by decide, extOpsNew := by decide }
+
+/-- … and therefore builds exactly its declared content -/
+example : build extDoc = .ok ((Declared extDoc).get extDeclares) := build_exact_final _ _ extDoc_ok
 
 end PyGql.Props.C11
